@@ -68,6 +68,25 @@ func (r *recorder) dial(ctx context.Context, network, addr string) (net.Conn, er
 	return d.DialContext(ctx, "tcp", target)
 }
 
+// dialDefault is the dialer of http.DefaultTransport (what the JSON-LD document loader of the repo fetches remote contexts with):
+// connections to a loopback address go where they say (the local servers, the node's own listeners), everything else - any name, any
+// other address - is recorded and lands on the local TLS / plain server, so that "a request left the node for host H" is an observable.
+func (r *recorder) dialDefault(ctx context.Context, network, addr string) (net.Conn, error) {
+	r.mu.Lock()
+	r.dials = append(r.dials, addr)
+	r.mu.Unlock()
+	target := addr
+	host, port, err := net.SplitHostPort(addr)
+	if ip := net.ParseIP(host); err != nil || ip == nil || !ip.IsLoopback() {
+		target = r.tlsAddr
+		if port == "80" || port == "8080" {
+			target = r.httpAddr
+		}
+	}
+	var d net.Dialer
+	return d.DialContext(ctx, "tcp", target)
+}
+
 const ldContext = `{"@context":{"@version":1.1,"verif":"https://verif.invalid/ns#"}}`
 
 func (r *recorder) handler(scheme string) http.Handler {
@@ -82,7 +101,7 @@ func (r *recorder) handler(scheme string) http.Handler {
 		case strings.Contains(req.URL.Path, "/redir307"):
 			w.Header().Set("Location", "http://"+hostOnly(req.Host)+"/landing")
 			w.WriteHeader(http.StatusTemporaryRedirect)
-		case strings.HasPrefix(req.URL.Path, "/ctx/"):
+		case strings.HasPrefix(req.URL.Path, "/ctx/") || strings.Contains(req.Header.Get("Accept"), "application/ld+json"):
 			w.Header().Set("Content-Type", "application/ld+json")
 			_, _ = io.WriteString(w, ldContext)
 		default:
@@ -198,5 +217,8 @@ func startNetwork(t *testing.T) *recorder {
 	tr.TLSClientConfig.RootCAs = pool
 	client.SafeHttpTransport = tr
 	client.DefaultCachingTransport = tr
+	// the JSON-LD document loader (json-gold default loader) goes through http.DefaultClient
+	http.DefaultTransport = &http.Transport{DialContext: rec.dialDefault, DisableKeepAlives: true, ResponseHeaderTimeout: 5 * time.Second,
+		TLSHandshakeTimeout: 5 * time.Second, TLSClientConfig: &tls.Config{RootCAs: pool, MinVersion: tls.VersionTLS12}}
 	return rec
 }
